@@ -54,11 +54,21 @@ mod imp {
     }
   }
   pub fn any<T: FromLe>() -> T {
-    let v = VALS.with(|q| q.borrow_mut().pop_front());
-    match v {
-      Some(v) => T::from_le(&v),
-      None => std::panic::panic_any(OutOfValues),
+    // Kani's concrete playback lists an array element by element: gather as many entries as the value needs
+    let want = core::mem::size_of::<T>().max(1);
+    let mut bytes: Vec<u8> = Vec::new();
+    loop {
+      let v = VALS.with(|q| q.borrow_mut().pop_front());
+      match v {
+        Some(v) => bytes.extend_from_slice(&v),
+        None if bytes.is_empty() => std::panic::panic_any(OutOfValues),
+        None => break,
+      }
+      if bytes.len() >= want {
+        break;
+      }
     }
+    T::from_le(&bytes)
   }
   pub fn assume(c: bool) {
     if !c {
